@@ -1,6 +1,8 @@
 """Per-property configuration of ./check."""
 
 PROPS = {}
+HOOK_COMMITS = ["4bf9c3e"]
+NOT_APPLICABLE = {}
 
 PROPS["C19"] = {
     "gen": ["gen_color_table.py"],
@@ -16,4 +18,32 @@ PROPS["C19"] = {
         "tools/gen_color_table.py regenerates QV.Gen.colorTable from lib/src/color.rs on every run",
     ],
     "assumptions": ["Qt reads #rgb/#argb/#rrggbb/#aarrggbb and SVG keywords as stated in the property text"],
+    "level_text": "full proof: parse_color_eq_spec shows model = specification for every string (all hex lengths, all keywords, "
+                  "case-insensitivity, rejection of everything else); the keyword table is regenerated from color.rs and "
+                  "re-proved by kernel evaluation on every run; the model is compared with Color::from_str exhaustively on all "
+                  "3/4-digit hex colours and through the real .ui output",
+    "level_note": "trusted: Lean kernel; the hand-written model of from_str/parse_hex_color (tied by the c19 correspondence stream); "
+                  "SVG table typed in from an independent source; Qt's reading of colour strings as stated in the property",
+    "technique": "Lean 4 proof (model = spec for all strings) + table regeneration + exhaustive differential correspondence",
+}
+
+PROPS["C12"] = {
+    "gen": [],
+    "lean": ["QV.Props.C12"],
+    "streams": ["c12"],
+    "rule": "each case is a generated grid/form/box layout (flow, wrap count, ≤7 children with optional "
+            "row/column/spans/stretches/minimum sizes incl. negative and too-large values) translated by the real "
+            "pipeline; the <item> cells, array attributes and diagnostics of the real .ui are compared with the Lean "
+            "specification (kind=spec) and the Lean model (kind=model); distinct = distinct requests",
+    "exhaustive_note": "thorough tier enumerates all grids with ≤3 children and explicit positions in {none,0,1,2}² for both flows",
+    "trusted_base": ["hand-written model of lib/src/uigen/layout.rs (counter, index validation, array insertion), tied by the c12 stream"],
+    "assumptions": ["i32 arithmetic cannot overflow: indexes ≤ 65535 and at most one increment per child",
+                    "clause 'row minimum height recorded at the row index' is refuted (F9, known finding)"],
+    "level_text": "proof (partial: one clause refuted): grid_cells_and_arrays_partial proves for every flow, wrap count and child "
+                  "sequence that the model emits each child at the specification's cell with its spans and records column/row "
+                  "arrays as 'first value per index'; autoflow_closed_form gives (k/n, k%n); form and box variants; conflicts and "
+                  "out-of-range indexes diagnosed. row_min_height_at_row is refuted by a kernel-checked witness (F9, known finding).",
+    "level_note": "trusted: Lean kernel; hand-written model of layout.rs tied by the c12 stream on generated layouts through the real "
+                  "pipeline; F9 is listed in KNOWN_FINDINGS.json and matched only when the output equals the F9 variant of the spec",
+    "technique": "Lean 4 proof (simulation of the index counter and array insertion against a declarative spec) + differential correspondence",
 }
